@@ -115,6 +115,13 @@ def gen(ctx, rng):
         cube = np.where(rng.random(cube.shape) < 0.35, nd, cube)
         cube[0, 0, :] = nd
         acc.append(dict(xx=cube.tolist(), ws=ws, nd=nd, dtype=dtype, attr=bool(k % 2)))
+    # the dimension keyword: rolling along y or x of a (y, x, time) cube
+    for k, dim in enumerate(["x", "y"] + (["x", "y"] if ctx.thorough else [])):
+        shape = (int(rng.integers(4, 9)), int(rng.integers(4, 9)), 3)
+        ws = int(rng.integers(2, 4))
+        cube = rng.integers(-20, 20, size=shape).astype("int64")
+        cube = np.where(rng.random(cube.shape) < 0.3, ND, cube)
+        acc.append(dict(xx=cube.tolist(), ws=ws, nd=ND, dtype=["int16", "float32"][k % 2], attr=False, dim=dim))
     # mean_grp: exhaustive small scope + random
     mean = []
     exh_m = 5 if ctx.thorough else 4
@@ -138,6 +145,15 @@ def gen(ctx, rng):
             rows.append([int(v) for v in x])
         mean.append(dict(xx=rows, grp=[int(g) for g in lab], ng=k, nd=nd,
                          dtype=str(rng.choice(["int16", "int32", "int64", "float32"])), exhaustive=False))
+    # float32 series whose running sum leaves the 24-bit mantissa: large dynamic range inside a group, and long groups
+    mean.append(dict(xx=[[16777216, 1, 1, 1], [16777216, 3, 5, 7], [1, 1, 1, 16777216]], grp=[0, 0, 0, 0], ng=1, nd=ND, dtype="float32", exhaustive=False))
+    mean.append(dict(xx=[[16777216, 1, ND, 1, 2, 33554432], [3, 16777216, 1, 1, 1, 5]], grp=[0, 1, 0, 1, 0, 1], ng=2, nd=ND, dtype="float32", exhaustive=False))
+    for L in ([4000, 20000] if ctx.thorough else [4000]):
+        x = rng.integers(5000, 6001, size=L)
+        x = np.where(rng.random(L) < 0.1, ND, x)
+        lab = [int(v) for v in rng.integers(0, 2, size=L)]
+        lab[0], lab[1] = 0, 1
+        mean.append(dict(xx=[[int(v) for v in x]], grp=lab, ng=2, nd=ND, dtype="float32", exhaustive=False))
     macc = []
     for k in range(6 if ctx.thorough else 3):
         L = int(rng.integers(3, 10))
@@ -215,8 +231,17 @@ def run(ctx):
     for b, r in zip(acc, res["rolling_acc"]):
         cube = np.array(b["xx"])
         o = np.array(r["out"])
-        m0 = dict(kind="rolling_accessor", ws=b["ws"], nd=b["nd"], dtype=b["dtype"], attr=b["attr"])
-        if r["dims"] != ["y", "x", "time"]:
+        m0 = dict(kind="rolling_accessor", ws=b["ws"], nd=b["nd"], dtype=b["dtype"], attr=b["attr"], dimension=b.get("dim", "time"))
+        if "error" in r:
+            spec_fail.append((m0, "rolling.sum(dimension=%r) raised %s" % (b.get("dim"), r["error"])))
+            continue
+        if b.get("dim"):
+            ax = {"y": 0, "x": 1}[b["dim"]]
+            cube = np.moveaxis(cube, ax, -1)            # the rolled dimension last, like the transposed result
+            if r["dims"][-1] != b["dim"] or list(o.shape[:-1]) != list(cube.shape[:-1]):
+                spec_fail.append((dict(m0, dims=r["dims"], shape=list(o.shape)), "rolling.sum(dimension=%r): dims / shape changed" % b["dim"]))
+                continue
+        elif r["dims"] != ["y", "x", "time"]:
             spec_fail.append((dict(m0, dims=r["dims"]), "dims changed"))
             continue
         for yy in range(cube.shape[0]):
